@@ -40,6 +40,7 @@ def check(ctx):
     ctx.attempt(_sibling_verifiers)
     ctx.attempt(config_separators)
     ctx.attempt(decompiled_text_is_typed)
+    ctx.attempt(one_setting_sets_itself)
     ctx.attempt(word_dispatch)
     from .c14 import parse_not_gated          # config_tracts() / a new .config must take effect on the next parse_tracts()
     ctx.attempt(parse_not_gated, rule='LOCK')
@@ -667,6 +668,22 @@ def word_dispatch(ctx, rule='TBL'):
                   if ex[2] == 'typed' else '')
                + f" ({len(wrong)} of {n} words misrouted)") if ex else '',
               key=f"{rule}|Config._text_to_attributes|dispatch|{ex[2] if ex else ''}", where=common.loc(fi, chain))
+
+
+def one_setting_sets_itself(ctx, rule='TBL'):
+    """Config._set_str_to_values stores the one attribute it was asked to set
+    (`setattr(self, attribute, value)`).  A store to some OTHER attribute from
+    there makes the meaning of a config string depend on the order of its
+    words, and since decompile_to_text writes the settings in a fixed order,
+    a Config no longer survives its own text form."""
+    fi = ctx.repo.func('Config._set_str_to_values')
+    stores = [a for a in walk_local(fi.node) if isinstance(a, ast.Assign) and any(
+        isinstance(t, ast.Attribute) and norm(t.value) == 'self' for tt in a.targets for t in ([tt] if not isinstance(tt, ast.Tuple) else tt.elts))]
+    ctx.check(not stores, rule, 'Config._set_str_to_values writes only the attribute it was given',
+              detail_bad=f"`{norm(stores[0])[:60] if stores else ''}` changes another setting as a side effect: 'qq_depth.3,qq_depth_min.1' and "
+                         f"the reversed string no longer mean the same, and a Config that holds both loses one of them when it is "
+                         f"decompiled (fixed order) and read back - the object and its text differ in effect",
+              key=f"{rule}|Config._set_str_to_values|side-effect", where=common.loc(fi, stores[0]) if stores else None)
 
 
 def decompiled_text_is_typed(ctx, rule='TBL'):
